@@ -802,6 +802,11 @@ def run(prop, seed, budget, ctx):
             vf, vn, vd = engine_validate.e2e_nocrash(seed, budget)
             for f in vf: hist["P:" + f["why"][0]] += 1
             failures += vf; distinct |= vd; hist["validator-classes(no-crash)"] = vn; dn += vn
+            import agg_validators
+            af_, an_, ad_, ah_ = agg_validators.run_part(seed, budget)
+            af_ = [f for f in af_ if f["why"][0].startswith("crash")]           # (what C03 is about; the other clauses are C10's)
+            failures += af_; distinct |= ad_; dn += an_
+            for f in af_: hist["P:" + f["why"][0].split(":")[0]] += 1
             import std_nocrash
             sf_, sn_, sd_, sh_ = std_nocrash.run_part(seed, budget)
             failures += sf_; distinct |= sd_; dn += sn_
@@ -854,6 +859,8 @@ def replay(prop, case, ctx):
     if case.get("part") == "deserialize" and "validators" in case:
         import engine_validate
         return engine_validate.replay(prop, case, ctx)
+    if case.get("part") == "aggregate-validators":
+        return {k: case[k] for k in ("src", "datum", "outcome", "validators_run", "why")}
     if case.get("part") == "std-types":
         return {k: case[k] for k in ("py", "datum", "coerce", "first", "second", "why")}
     if case.get("part") == "aggregate-oracle":
